@@ -178,6 +178,15 @@ func pbEntry(rng *vRand) string {
 	n := nums[rng.Intn(len(nums))]
 	if rng.Intn(3) == 0 {
 		n = strconv.FormatInt(rng.Int63()%1000000, 10)
+	} else if rng.Intn(6) == 0 {
+		// any 63-bit count: most of these do not fit a time.Duration in
+		// milliseconds, whatever sign the wrapped product happens to have
+		n = strconv.FormatInt(rng.Int63(), 10)
+		if rng.Intn(3) == 0 {
+			n = "-" + n
+		}
+	} else if rng.Intn(8) == 0 {
+		n = strconv.FormatInt(9223372036854+int64(rng.Intn(3))-1, 10) // around MaxInt64/1e6
 	}
 	switch rng.Intn(10) {
 	case 0:
